@@ -600,7 +600,7 @@ REFINED = ["gcd_ops.rs dispatch (gcd / gcd_ext over inline/heap operands) and IB
            "lehmer::gcd_ext_in_place buffer-length claims: t1*x + t0*y = lhs through every Euclidean / Lehmer step for WHATEVER quotients the guess commits (only det = 1 is used), hence t0, t1 <= lhs; a committed Lehmer step leaves both combined values strictly positive, so y = 0 arises only from a Euclidean step; cofactor bounds |s|*g <= b, |t|*g <= a of the primitive gcd_ext; the returned |b| satisfies |b|*g <= lhs resp. |b| <= lhs at EVERY exit — the lhs_len(+1)-word buffers suffice and the debug_assert_zero! carries are zero (gcd_ext_cofactors_fit_partial, gcd_ext_prim_cofactor_bounds, gcd_ext_b_fits_partial, gcd_ext_b_fits)",
            "lehmer::gcd_ext_in_place main loop, EVERY iteration (round 6): lehmerExtStep = one pass through the while body; the executed loop is its iteration and returns the state at the head of the first iteration at which y has at most one word (gcd_ext_loop_is_iteration); at the head of every iteration reached from (lhs, rhs, 0, 1), rhs <= lhs: t1*x + t0*y = lhs, y <= x, and while y > 0 both t0, t1 < 2^(W*lhs_len) — the operands and results of every lehmer_ext_step / add_signed_mul call fit the reserved words (gcd_ext_every_iteration_fits)",
            "lehmer::gcd_ext_in_place Euclidean fallback, EVERY iteration (round 6): q = x / y >= 1, t1 >= 1 (the coefficient never vanishes), t0 + q*t1 <= lhs < 2^(W*lhs_len), and q.len() + t1_len <= lhs_len + 1 — the slice t0[..qt1_len] handed to mul::add_signed_mul lies inside the reserved lhs_len + 1 words and the carry store t0[qt1_len] is in range (gcd_ext_euclid_slice_fits); with q_top > 0 (quotient of q_lo.len() + 1 words) q_lo.len() + t1_len <= lhs_len, so add_mul_word_in_place gets exactly t1_len destination words (gcd_ext_euclid_qtop_slice_fits)",
-           "lehmer::lehmer_step zip loop at the word level (round 6; Model/NT/LehmerStepWords.lean lehmerStepWords: signed double-word accumulations a*x_i - b*y_i + x_carry, d*y_i - c*x_i + y_carry, split_signed_dword, signed carry words): for the committed cofactors (<= SignedWord::MAX), word operands with y not longer than x and signed-word incoming carries no accumulation leaves [-2^(2W-1), 2^(2W-1)), lengths kept, results are words, outgoing carries are signed words, x'[..n] + 2^(W*n)*x_carry = a*x[..n] - b*y, y' + 2^(W*n)*y_carry = d*y - c*x[..n] (lehmer_step_words_spec); not driven (pub(crate) fn) — TIE A instead: both split_signed_dword(...) accumulation expressions regenerated, every other token of lehmer_step pinned, fails closed (lehmer_step_words_regenerated); the x_top fix-up after the loop (pinned as text) is mirrored in Model/NT/LehmerStepFull.lean lehmerStepFull with both debug_assert_eq!s as failures: for operands of equal length, resp. x one word longer, and results with 0 <= a*X - b*Y <= X, 0 <= d*Y - c*X < 2^(W*y.len()), a >= 1, the function returns exactly the two results — y_carry = c*x_top, the fix-up is one word with zero carry, and with no carry left the untouched top word is already right (lehmer_step_full_eqlen, lehmer_step_full_longer); a committed guess supplies all of these value hypotheses (lehmer_step_committed_values; round 7: d*y - c*x <= y at every state of lehmer_guess — it starts at y and each second half round subtracts q*(a*x - b*y) >= 0 — lehmer_step_committed_y_le, so d*Y - c*X <= Y < 2^(W*y.len()), the function's own debug_assert_eq!(y_carry, c * x_top)); hence NO value hypothesis is left: for word operands with Y <= X, y of more than one significant word and a committed guess computed from the operands, lehmerStepFull returns a*X - b*Y, d*Y - c*X exactly, lengths kept, both positive, sum <= X, new y <= Y, for both operand shapes (lehmer_step_full_committed_eqlen, lehmer_step_full_committed_longer)",
+           "lehmer::lehmer_step zip loop at the word level (round 6; Model/NT/LehmerStepWords.lean lehmerStepWords: signed double-word accumulations a*x_i - b*y_i + x_carry, d*y_i - c*x_i + y_carry, split_signed_dword, signed carry words): for the committed cofactors (<= SignedWord::MAX), word operands with y not longer than x and signed-word incoming carries no accumulation leaves [-2^(2W-1), 2^(2W-1)), lengths kept, results are words, outgoing carries are signed words, x'[..n] + 2^(W*n)*x_carry = a*x[..n] - b*y, y' + 2^(W*n)*y_carry = d*y - c*x[..n] (lehmer_step_words_spec); not driven (pub(crate) fn) — TIE A instead: both split_signed_dword(...) accumulation expressions regenerated, every other token of lehmer_step pinned, fails closed (lehmer_step_words_regenerated); the x_top fix-up after the loop (pinned as text) is mirrored in Model/NT/LehmerStepFull.lean lehmerStepFull with both debug_assert_eq!s as failures: for operands of equal length, resp. x one word longer, and results with 0 <= a*X - b*Y <= X, 0 <= d*Y - c*X < 2^(W*y.len()), a >= 1, the function returns exactly the two results — y_carry = c*x_top, the fix-up is one word with zero carry, and with no carry left the untouched top word is already right (lehmer_step_full_eqlen, lehmer_step_full_longer); a committed guess supplies all of these value hypotheses (lehmer_step_committed_values; round 7: d*y - c*x <= y at every state of lehmer_guess — it starts at y and each second half round subtracts q*(a*x - b*y) >= 0 — lehmer_step_committed_y_le, so d*Y - c*X <= Y < 2^(W*y.len()), the function's own debug_assert_eq!(y_carry, c * x_top)); hence NO value hypothesis is left: for word operands with Y <= X, y of more than one significant word and a committed guess computed from the operands, lehmerStepFull returns a*X - b*Y, d*Y - c*X exactly, lengths kept, both positive, sum <= X, new y <= Y, for both operand shapes (lehmer_step_full_committed_eqlen, lehmer_step_full_committed_longer); round 8: the SHAPE hypothesis is derived too — for y <= x with y two or more significant words shorter than x both estimators return (1, 0, 0, 1) (the aligned part of y is 0 or the first quotient is >= 2^W > COEFF_LIMIT: lehmer_guess_gap_fails), so a committed guess happens only with x.len() - y.len() in {0, 1} on the trimmed slices, the function's first debug_assert! (lehmer_commit_shape); for trimmed word slices (non-zero top words), Y <= X, y of more than one word and the committed guess computed from them, lehmerStepFull returns both combined values with NO shape and NO value hypothesis (lehmer_step_full_committed_trimmed)",
            "lehmer::lehmer_ext_step word loop (round 6; Model/NT/LehmerWords.lean lehmerExtStepWords: zip/take(len) loop, two double-word accumulations a*x_i + b*y_i + carry, split_dword): for word operands and cofactors with a + b, c + d < 2^W no accumulation overflows, lengths kept, words beyond len untouched, carries are words, x'[..len] + 2^(W*len)*x_carry = a*x[..len] + b*y[..len] (lehmer_ext_step_words_spec); the committed cofactors are <= SignedWord::MAX (lehmer_cofactors_le_signed_max: the debug_asserts of lehmer_ext_step hold); inside gcd_ext_in_place at EVERY iteration where the guess commits, for any buffers holding t0, t1 in their first len words: the loop returns a*t0 + b*t1, c*t0 + d*t1 and a non-zero carry word implies len < lhs_len, so t[tmax_len] = carry and the new length tmax_len + 1 stay within lhs_len words (gcd_ext_lehmer_ext_step_words_fit); TIE A: the two split_dword(...) accumulation expressions are regenerated from integer/src/gcd/lehmer.rs and every other token of lehmer_ext_step is pinned, fails closed (lehmer_ext_step_words_regenerated; mutants/C12/m24.diff)",
            "gcd::gcd_ext_word / gcd_ext_dword (coefficient recovery |b| = q*|t| + |s|)", "gcd_ext_large post-processing (one product + exact division)",
            "base ring/gcd.rs unchecked_gcd_ext (Euclid with cofactors)", "base ring/gcd.rs Gcd::gcd + unchecked_gcd (binary gcd with the one-division shortcut; (a|b).trailing_zeros() = min proved)",
@@ -616,7 +616,7 @@ REFINED = ["gcd_ops.rs dispatch (gcd / gcd_ext over inline/heap operands) and IB
            "log_dword / log_word_base / log_large correction loops for any admissible first guess", "UBig::remove (squaring tower up, then down)",
            "IBig::nth_root / sqrt / cbrt sign rules and panics",
            "no_std table estimator log2_fp8 / ceil_log2_fp8 over all u16, the u8 powering cases and the top-16-bit + shift lifting to wider integers (integer-level enclosure theorems by kernel evaluation)"]
-FRONTIER = ["lehmer_step at the word level: every value hypothesis is now derived from the committed guess (round 7: lehmer_step_committed_y_le, lehmer_step_full_committed_eqlen / _longer); what is left: the word mirrors of lehmer_step / lehmer_ext_step are not driven (private fns), tied by Tie A and by theorem to the executed value-level loops; that gcd_in_place hands lehmer_step slices of exactly these two shapes (x.len() - y.len() in {0, 1} after trimming) is the function's first debug_assert!, not derived from the loop",
+FRONTIER = ["lehmer_step at the word level: every value hypothesis is derived from the committed guess (round 7) and so is the slice shape (round 8: a committed guess implies x.len() - y.len() in {0, 1} on trimmed slices — lehmer_guess_gap_fails, lehmer_commit_shape, lehmer_step_full_committed_trimmed; the function's first debug_assert! is no longer assumed); what is left: the word mirrors of lehmer_step / lehmer_ext_step are not driven (private fns), tied by Tie A and by theorem to the executed value-level loops; that the slices gcd_in_place holds at the loop head ARE trimmed (trim_leading_zeros after every step; the value-level loop works on numbers, where trimming is implicit) is read off the code, not mirrored at the slice level",
             "gcd_ext_in_place buffer-length claims, what is left: lehmer_ext_step is mirrored at the word level and proved (round 6); the mirror is NOT executed by the driver (a private fn without a harness entry): it is tied to /repo by Tie A (accumulation expressions regenerated, the rest of the function text pinned, lehmer_ext_step_words_regenerated) and to the executed value-level loop by theorem (its result IS a*t0 + b*t1, c*t0 + d*t1); the word loops of mul::add_signed_mul / add_mul_word_in_place on the Euclidean fallback (t0 += q*t1) stay at value level (they are C01's kernels; proved at every iteration since round 6: the slice t0[..q_lo.len() + t1_len] lies inside the lhs_len + 1 words, t0 + q*t1 <= lhs, t1 >= 1 — gcd_ext_euclid_slice_fits; on the q_top > 0 arm q_lo.len() + t1_len <= lhs_len, the min never cuts the destination below t1_len words — gcd_ext_euclid_qtop_slice_fits; the partial sums of the kernels are not separately bounded)",
             "base ring/root.rs u64 Newton estimate stages (sqrt: three Newton steps on 1/sqrt(n) with s -= 10; cbrt: two steps with r - 1): TOTALITY (no arithmetic overflow, i.e. the estimate is an under-estimate that fits) is proved for u8, u16, u32 (prim_root_u32_total, round 5) but NOT for the two u64 routines (u128 is proved total RELATIVE to them, see the end of this entry): the interval argument used for u32 needs one kernel evaluation per value of the top half (2^32 of them for u64), and a coarser subdivision does not work because the safety margin (10 units in 2^32) is far below what interval arithmetic over a block of operands can resolve — it needs the analytic error recurrence of the Newton steps (quadratic convergence with the truncation errors of each wmul32_hi), which is not done. The routines are mirrored and executed with checked arithmetic (an overflow would print as `panic ArithmeticOverflow` and disagree with the real code), and their answers are proved to be the floor root whenever they answer (prim_sqrt_rem_sound, prim_cbrt_rem_sound, all widths incl. u128). The u128 SQUARE-root step is proved to add no overflow of its own (prim_sqrt_u128_total_of_u64, round 5: u += s1, q*q, s -= 1 stay in range and the remainder carry after the c < 0 repair is never negative), so `sqrt_rem_driver_spec_u64` states sqrt_rem exactly as the driver runs it for the 64-bit word with ONE hypothesis: <u64>::normalized_sqrt_rem answers on normalised operands. Likewise the u128 CUBE-root step (prim_cbrt_u128_total_of_u64, round 5: every checked operation and both `as i128` casts in range, q <= B + 7, the `while r < 0` descent ends within 8 steps on normalised operands): u64::cbrt_rem and u128::cbrt_rem answer everywhere if <u64>::normalized_cbrt_rem answers on normalised operands. What is left as hypothesis is exactly: the two u64 Newton routines (normSqrtU64, normCbrtU64) do not overflow on normalised u64 operands",
             "f32 log2 first guesses of ilog: a parameter with the hypothesis the code asserts (base^est <= x)",
@@ -666,6 +666,6 @@ THEOREMS = ["Dashu.Props.C12." + t for t in ["gcd_prim_spec", "trailing_zeros_or
             "log2_table_sound", "log2_u8_table_sound", "log2_wide_table_sound", "nth_root_zero_asIs_counterexample", "sqrt_rem_asIs_counterexample", "ibig_cbrt_asIs_counterexample",
             "ilog_zero_asIs_counterexample", "gcd_ext_post_precondition_counterexample",
             "zimmermann_step", "sqrt_rem_42_correct", "sqrt_rem_karatsuba_correct", "sqrt_rem_kernel_eq_spec", "sqrt_rem_mirrored_spec", "nth_root_mirrored_eq",
-            "fix_sqrt_error_sound", "fix_cbrt_error_sound", "prim_sqrt_rem_sound", "prim_cbrt_rem_sound", "prim_root_u8_total", "prim_root_u16_total", "prim_exact_of_total", "sqrt_rem_driver_spec", "prim_root_u32_total", "prim_sqrt_u32_exact", "cbrt_karatsuba_step", "root_tables_regenerated", "root_u128_steps_regenerated", "prim_sqrt_u128_total_of_u64", "sqrt_rem_driver_spec_u64", "prim_cbrt_u128_total_of_u64", "gcd_ext_cofactors_fit_partial", "gcd_ext_prim_cofactor_bounds", "gcd_ext_b_fits_partial", "gcd_ext_b_fits", "gcd_ext_loop_is_iteration", "gcd_ext_every_iteration_fits", "lehmer_ext_step_words_spec", "lehmer_cofactors_le_signed_max", "gcd_ext_lehmer_ext_step_words_fit", "lehmer_ext_step_words_regenerated", "gcd_ext_euclid_slice_fits", "gcd_ext_euclid_qtop_slice_fits", "lehmer_step_words_spec", "lehmer_step_words_regenerated", "lehmer_step_committed_values", "lehmer_step_full_eqlen", "lehmer_step_full_longer", "lehmer_step_committed_y_le", "lehmer_step_full_committed_longer", "lehmer_step_full_committed_eqlen"]]
+            "fix_sqrt_error_sound", "fix_cbrt_error_sound", "prim_sqrt_rem_sound", "prim_cbrt_rem_sound", "prim_root_u8_total", "prim_root_u16_total", "prim_exact_of_total", "sqrt_rem_driver_spec", "prim_root_u32_total", "prim_sqrt_u32_exact", "cbrt_karatsuba_step", "root_tables_regenerated", "root_u128_steps_regenerated", "prim_sqrt_u128_total_of_u64", "sqrt_rem_driver_spec_u64", "prim_cbrt_u128_total_of_u64", "gcd_ext_cofactors_fit_partial", "gcd_ext_prim_cofactor_bounds", "gcd_ext_b_fits_partial", "gcd_ext_b_fits", "gcd_ext_loop_is_iteration", "gcd_ext_every_iteration_fits", "lehmer_ext_step_words_spec", "lehmer_cofactors_le_signed_max", "gcd_ext_lehmer_ext_step_words_fit", "lehmer_ext_step_words_regenerated", "gcd_ext_euclid_slice_fits", "gcd_ext_euclid_qtop_slice_fits", "lehmer_step_words_spec", "lehmer_step_words_regenerated", "lehmer_step_committed_values", "lehmer_step_full_eqlen", "lehmer_step_full_longer", "lehmer_step_committed_y_le", "lehmer_step_full_committed_longer", "lehmer_step_full_committed_eqlen", "lehmer_guess_gap_fails", "lehmer_commit_shape", "lehmer_step_full_committed_trimmed"]]
 USES_GEN = True
 READY = True
